@@ -12,7 +12,7 @@ A_NOTE = ("Trusted: std::sync::mpsc and the 30-line native transport (the simula
 CHECKS = {
     "C08": dict(engine="enum", category="exploration", design="5.1, 7/C08",
                 technique="exhaustive product of literal values x static-type forms x pattern types x test forms, each its own program, judged by a host-side structural membership model in three execution configurations",
-                text="23 values x 3 ways the value reaches the test (exact type / widened by never-taken alternatives) x 26 pattern types (unions, partials, named/unnamed tuples, recursive list alias, function type) x 6 test forms (type pattern, as-pattern, typed tuple field, partial field, block branch, function dispatch) = 10764 programs: accept => the value inhabits the type; value at its most specific type inhabiting the type => accept; verdict identical directly, tree-shaken, and after real merges into an environment that already holds independently compiled pool programs (every table index shifted); plus 30 typed-receive programs (a typed receive takes the earliest message of its type).",
+                text="23 values x 3 ways the value reaches the test (exact type / widened by never-taken alternatives) x 26 pattern types (unions, partials, named/unnamed tuples, recursive list alias, function type) x 6 test forms (type pattern, as-pattern, typed tuple field, partial field, block branch, function dispatch) = 10764 programs, plus 728 late-value cases (the test installed by an earlier REPL line / merge, the value - incl. function and builtin values against function types - built by a later one; verdict equal to the same lines as one program): accept => the value inhabits the type; value at its most specific type inhabiting the type => accept; verdict identical directly, tree-shaken, and after real merges into an environment that already holds independently compiled pool programs (every table index shifted); plus 30 typed-receive programs (a typed receive takes the earliest message of its type).",
                 note="Host membership model covers the listed values/types only; function types 'unknown'; resource types covered by C14 scenarios."),
     "C19": dict(engine="enum", category="model_checking", design="7/C19",
                 technique="explicit-state breadth-first search over operation histories of the real %dict (states are real dict values in real REPL sessions) against a BTreeMap reference",
@@ -40,15 +40,15 @@ CHECKS = {
                 note="sqrt only where trial division finishes within 4000 steps; abstains where the module documents nothing (numer/denom of a surd, clamp with lo > hi)."),
     "C11": dict(engine="enum", category="model_checking", design="7/C11",
                 technique="explicit-state search over REPL line histories (states are real sessions of the real Repl + Environment + workers), each history compared with the one-piece program",
-                text="All histories of <= 4 (thorough 5) lines over a 16-line alphabet chosen to interact (bindings, shadowing, destructuring, type aliases, closures over earlier bindings, previous-result flow, heap binaries and rebinding, imports, parse/compile-rejected lines, nil lines) plus every cut of 30 corpus programs into lines: per-line value and every bound variable equal the one-piece program; a rejected line leaves the session unchanged; heap accounting holds after every line.",
+                text="All histories of <= 4 (thorough 5) lines over a 19-line alphabet chosen to interact (bindings, shadowing, destructuring, type aliases incl. one named like a variable, closures over earlier bindings, previous-result flow, heap binaries and rebinding, imports incl. a compiler-rejected importing line, parse/compile-rejected lines, nil lines) plus every cut of 30 corpus programs into lines: per-line value and every bound variable equal the one-piece program; a rejected line leaves the session unchanged (state, and line by line: every later line - accepted or rejected - behaves as in the history without the rejected lines); heap accounting holds after every line.",
                 note="One-piece comparison programs hoist type-definition lines (known parser finding); references compare as 'a reference'; functions up to table index."),
     "C02": dict(engine="enum", category="exploration", design="5.2, 5.3, 7/C02, Appendix A",
                 technique="bounded-exhaustive enumeration of core-language programs (all programs up to n nodes and all cores x contexts) differentially executed against an independent reference interpreter of docs/spec.md",
-                text="Every program of the core grammar with <= 3 (thorough 4) nodes and every core of <= 2 (thorough 3) nodes in each of 25 contexts is parsed, compiled with the real compiler, run on the real VM, and compared with a direct AST interpreter of docs/spec.md written independently of the compiler (no bytecode, no simplify); compiler-rejected programs and programs on which the reference abstains (spec silent) are counted, not judged; disagreements are shrunk to minimal cores.",
+                text="Every program of the core grammar with <= 3 (thorough 4) nodes and every core of <= 2 (thorough 3) nodes in each of 37 contexts (incl. locals bound after the core, earlier branches that stored bindings before failing, the flowing value inside spread tuples) is parsed, compiled with the real compiler, run on the real VM, and compared with a direct AST interpreter of docs/spec.md written independently of the compiler (no bytecode, no simplify); compiler-rejected programs and programs on which the reference abstains (spec silent) are counted, not judged; disagreements are shrunk to minimal cores.",
                 note="The reference evaluator is a reading of docs/spec.md; it abstains where the spec is silent. Function values compare as 'a function'."),
     "C07": dict(engine="bcverify", category="model_checking", design="6, 7/C07",
                 technique="explicit-state reachability over the abstract machine states (pc, operand height, locals count) of every emitted function, with trace conformance against the real VM",
-                text="For every function of every accepted program (std, test-suite literals, spec examples, Engine-A scenarios, tail-call probes, and all programs of the core grammar up to n nodes) in four forms (as compiled, tree-shaken, JSON round trip, merged cumulatively into a running environment): all reachable (pc, h, l) states are visited and jump ranges, operand underflow, single height per pc, exit height 1, Load/Reset within the locals defined on every path, TailCall heights, and every table index are checked. The abstraction is bound to the VM by replaying real executions with the per-instruction trace hook (a disagreement is a machinery failure).",
+                text="For every function of every accepted program (std, test-suite literals, spec examples, Engine-A scenarios, tail-call probes, and all programs of the core grammar up to n nodes) in four forms (as compiled, tree-shaken, JSON round trip, merged cumulatively into a running environment): the tables are closed (every id inside the type/tuple/builtin tables in range, id graph well-founded), all reachable (pc, h, l) states are visited and jump ranges, operand underflow, single height per pc, exit height 1, Load/Reset within the locals defined on every path, TailCall heights, and every table index are checked. The abstraction is bound to the VM by replaying real executions with the per-instruction trace hook (a disagreement is a machinery failure).",
                 note="Transfer functions read off execute_hot/execute_cold; Select modelled by its completed effect; programs limited to the corpus and the enumerated grammar."),
     "C09": dict(engine="enum", category="exploration", design="5.1, 7/C09",
                 technique="bounded-exhaustive enumeration of all closed type terms up to a weight bound (recursive, partial, callable and process types included), all ordered pairs and triples, judged by an independent value-membership oracle with concrete witness values",
@@ -68,7 +68,7 @@ CHECKS = {
                 note="Eight known findings remain open after eleven formatter fixes (comment order, comments in string holes, bare type binding patterns, ...); see known_findings.json."),
     "C14": dict(engine="sim", category="model_checking", design="4, 7/C14",
                 technique="stateless model checking of the real runtime over an instrumented effect backend with scheduler-controlled completion; host-side ownership model on the consumed event stream",
-                text="Resource scenarios over the real file builtins and the real ownership logic under every schedule within the deviation bound, effects immediate or deferred: backend calls vs the calls the ownership rules allow after every environment step, runtime closes only for terminated owners and at most once, at quiescence every resource of a terminated owner is closed (one known finding: never-awaited owners).",
+                text="Resource scenarios over the real file and TCP builtins (in-memory backend: files, listeners, accepted sockets) and the real ownership logic under every schedule within the deviation bound, effects immediate or deferred: backend calls vs the calls the ownership rules allow after every environment step, runtime closes only for terminated owners and at most once, at quiescence every resource of a terminated owner is closed (one known finding: never-awaited owners).",
                 note=A_NOTE + " io_uring/native registry replaced by an in-memory backend."),
     "C15": dict(engine="sim", category="model_checking", design="4, 7/C15",
                 technique="stateless model checking of the real runtime with failure-placement scenarios and per-process result expectations",
@@ -80,7 +80,7 @@ CHECKS = {
                 note=A_NOTE + " Filters come from a closed family with host-known verdicts."),
     "C06": dict(engine="sim", category="model_checking", design="4, 7/C06",
                 technique="stateless model checking of the real runtime with heap-accounting invariants after every worker action, down to one instruction per time slice",
-                text="Binary-churn scenarios under every schedule within the deviation bound and every quantum in {1,2,3,1000}: after every worker action the refcount<=>reachability invariant, freed/free-list consistency, and at quiescence no unreachable unreclaimed slot; result bytes equal host-computed bytes; the repository's own debug assertions are live.",
+                text="Binary-churn scenarios (incl. a bodied filter holding a heap binary while a source written before it completes the select) under every schedule within the deviation bound and every quantum in {1,2,3,1000}, plus every REPL history of <= 4 (thorough 5) lines over a 13-line heap-binary alphabet (rebinding, aliasing, alias of the same name, temporaries, rejected line, a process that duplicates and returns a binary) on 1-3 workers with the same invariants after every line: after every worker action the refcount<=>reachability invariant, freed/free-list consistency, and at quiescence no unreachable unreclaimed slot; result bytes equal host-computed bytes; the repository's own debug assertions are live.",
                 note=A_NOTE),
     "C03": dict(engine="sim", category="model_checking", design="4, 7/C03",
                 technique="stateless model checking of the real runtime: deviation-bounded exhaustive schedule enumeration (+ explicit-state search in thorough) under a controlled scheduler",
